@@ -157,13 +157,40 @@ func remeasure(t *tm.Type, top bool, b []byte) uint64 {
 // of the input: a vector of k-byte elements costs sizeof(element) per element) plus the per-member
 // bookkeeping of the reflective decoder, which is proportional to the number of members and therefore to n.
 func allocBound(t *tm.Type, n int) uint64 {
-	return uint64((allocPerByte+2*maxElemSize(t))*n + allocConst)
+	return uint64(allocPerInputByte(t)*n + allocConst)
+}
+
+// allocPerInputByte: 64, twice the Go size of the largest vector element type, and - when a vector has struct
+// elements - the decoder's bookkeeping per element (two maps per struct, one fieldInfo and one split tag per member:
+// about 150 bytes for a one-member element, and every member takes at least one input byte).
+func allocPerInputByte(t *tm.Type) int {
+	per := allocPerByte + 2*maxElemSize(t)
+	if hasStructElems(t) {
+		per += allocPerStructElemByte
+	}
+	return per
 }
 
 const (
-	allocPerByte = 64
-	allocConst   = 1 << 13
+	allocPerByte           = 64
+	allocPerStructElemByte = 256
+	allocConst             = 1 << 13
 )
+
+// hasStructElems: some vector inside t has struct elements.
+func hasStructElems(t *tm.Type) bool {
+	switch t.K {
+	case "vec":
+		return t.Elem.K == "struct" || hasStructElems(t.Elem)
+	case "struct":
+		for _, f := range t.Fields {
+			if hasStructElems(f.T) {
+				return true
+			}
+		}
+	}
+	return false
+}
 
 // maxElemSize is the largest Go size of an element type of a vector of non-bytes inside t: the decoder
 // sizes such a vector by its byte length, so sizeof(element) per input byte is linear in the input.
@@ -378,7 +405,7 @@ func (c *checker) checkDecode(t *tm.Type, top bool, orig tm.Val, b []byte, wantO
 		key = t.String() + "/" + tag
 	}
 	c.rep.Eval(key)
-	if over := int64(d.alloc) - int64((allocPerByte+2*maxElemSize(t))*len(b)); over > c.maxOver {
+	if over := int64(d.alloc) - int64(allocPerInputByte(t)*len(b)); over > c.maxOver {
 		c.maxOver = over
 	}
 	switch {
@@ -442,6 +469,11 @@ func (c *checker) runCase(cs *Case, line int) {
 		panic(err)
 	}
 	fam := cs.ID.Fam
+	if fam == "bound" {
+		// the tag-bound family (MCTLSCodec.tla Bounds x forms x places): the fingerprint names the place of the tag
+		fam = "bound-" + boundPlace(cs.ID.L)
+		c.count("bound:" + boundCarrier(cs.ID.J) + ":" + boundPlace(cs.ID.L))
+	}
 	encWant := cs.Enc.B.Expand()
 	// the reference codec is the specification in executable form
 	rb, rok := tm.RefEnc(cs.T, v)
@@ -469,6 +501,41 @@ func (c *checker) runCase(cs *Case, line int) {
 		one.Ins = []Input{*in}
 		c.checkDecode(cs.T, cs.Top, v, b, in.Dec.Ok, want, wantRest, fam+":"+in.M, map[string]any{"case": &one})
 	}
+}
+
+// boundPlace / boundCarrier name the places and carriers of the family "bound" of MCTLSCodec.tla.
+func boundPlace(l int) string {
+	switch l {
+	case 1:
+		return "params"
+	case 2:
+		return "only-member"
+	case 3:
+		return "framed-member"
+	case 4:
+		return "chosen-arm"
+	case 5:
+		return "unchosen-arm"
+	}
+	return fmt.Sprintf("place%d", l)
+}
+
+func boundCarrier(j int) string {
+	switch j {
+	case 1:
+		return "maxval"
+	case 2:
+		return "minlen,maxlen"
+	case 3:
+		return "maxlen"
+	case 4:
+		return "maxlen,minlen"
+	case 5:
+		return "maxlen-uint16s"
+	case 6:
+		return "minlen=maxlen"
+	}
+	return fmt.Sprintf("form%d", j)
 }
 
 // TestReplay executes the cases exported by TLC (VERIF_CASES, NDJSON).
